@@ -9,6 +9,29 @@ import random
 
 
 EVENTS = [0]      # process-wide count of simulated I/O events (for the evidence: 'simulated time')
+REAL_OPEN = io.open            # captured before any seam is installed
+REAL_STAT = os.stat
+SIM_ROOT = '/simfs/'           # simulated files live under this (non-existent) directory; relative names are simulated too
+
+
+def sim_name(path):
+    """The SimFS file name a path argument refers to, or None for a path of the real file system (absolute paths
+    outside SIM_ROOT, file descriptors)."""
+    if isinstance(path, int):
+        return None
+    try:
+        p = os.fspath(path)
+    except TypeError:
+        return None
+    if isinstance(p, bytes):
+        p = os.fsdecode(p)
+    if p.startswith(SIM_ROOT):
+        return p[len(SIM_ROOT):]
+    if os.path.isabs(p):
+        return None
+    while p.startswith('./'):
+        p = p[2:]
+    return p
 
 
 class SimFile(object):
@@ -249,10 +272,11 @@ class SimFS(object):
         return h
 
     def open(self, path, mode='r', *a, **kw):
-        """Installed as the module-global `open` of nptdms.reader / nptdms.writer."""
-        name = str(path)
-        if os.path.isabs(name):
-            return builtins.open(path, mode, *a, **kw)    # RealFS backend: the real file system
+        """Installed as `open` (builtins.open / io.open) while a store is active: simulated names are opened here,
+        everything else on the real file system."""
+        name = sim_name(path)
+        if name is None:
+            return REAL_OPEN(path, mode, *a, **kw)    # RealFS backend: the real file system
         if 'b' not in mode:
             raise ValueError('SimFS only opens binary files')
         k = self.open_events
@@ -272,6 +296,21 @@ class SimFS(object):
         h = self._new(name, mode, 'library')
         h._ev('open', 0, 0, 0)
         return h
+
+    # -- what os.path / os.stat answer for simulated names
+    def isfile(self, path):
+        return sim_name(path) in self.files
+
+    def getsize(self, path):
+        name = sim_name(path)
+        if name not in self.files:
+            raise FileNotFoundError(errno.ENOENT, 'No such file or directory', str(path))
+        return len(self.files[name])
+
+    def stat(self, path):
+        import stat as stat_mod
+        size = self.getsize(path)
+        return os.stat_result((stat_mod.S_IFREG | 0o644, 0, 0, 1, 0, 0, size, 0, 0, 0))
 
     def stream(self, name, mode='rb'):
         """A handle created by the harness and handed to the library: caller-owned."""
